@@ -118,6 +118,7 @@ func lexTemplate(l *lexer) lexFn {
 
 func lexGohtStart(l *lexer) lexFn {
 	l.ignore()
+	l.indent = 0
 	l.skipRun(" ")
 	l.acceptUntil(")")
 	if strings.HasPrefix(l.current(), "(") {
